@@ -131,8 +131,13 @@ def cases(rng, tier):
                    variants=(f"{exc} ㄱㅅㅎㄴ",), tag='bind-handler-exec')
 
 
+def relevant(rec, case):
+    return True      # C10 includes the source location an uncaught exception carries
+
+
 SPEC = {
     'lean': ['C10'],
+    'relevant': relevant,
     'cases': cases,
     'stream': 'C10 planted-fault stream (incl. retry families: a cached failure evaluated again under another ㅅㄷ)',
     'rule': 'faults buried 1–4 levels deep in containers built by ㅁㄹ / ㄷㅂ / ㅅㅈ / ㅁㄷ / ㄷ / ㅂㅈ (so that intermediate containers are already strict) must be raised inside ㅅㄷ / ㄱㅅ; 52 strict operand positions (every built-in family, callables, argument position, callee, I/O constructors, '
